@@ -446,7 +446,10 @@ class Recfile(object):
         if self.robj is None:
             raise ValueError("You have not yet opened a file")
 
-        dataview = data.view(numpy.ndarray)
+        # the C++ writer walks the buffer row by row: it needs contiguous rows
+        # (a strided view such as d[::2] was written as the first rows of its
+        # base array)
+        dataview = numpy.ascontiguousarray(data.view(numpy.ndarray))
 
         if self.is_ascii:
             # for ascii, make sure the data are in native format.  This greatly
